@@ -252,3 +252,45 @@ func TestVerifReplayVIPPollOtherUser(t *testing.T) {
 		t.Logf("REPLAY-NOT-REPRODUCED")
 	}
 }
+
+// C05: a factor proven by the certificate user (bob, via his own bootstrap OTP) while the request carries
+// another user's session cookie: whose session is upgraded?
+func TestVerifReplayUpgradeOtherUsersCookie(t *testing.T) {
+	state, tmpdir, err := testCreateRuntimeStateWithBootstrapOTP(t, time.Minute)
+	if err != nil {
+		t.Fatal(err)
+	}
+	defer os.RemoveAll(tmpdir)
+	recorder := httptest.NewRecorder()
+	w := &instrumentedwriter.LoggingWriter{ResponseWriter: recorder}
+	req := httptest.NewRequest("POST", "/", nil)
+	req.TLS, err = testMakeConnectionState("testdata/bob.pem", "testdata/KeymasterCA.pem")
+	if err != nil {
+		t.Fatal(err)
+	}
+	req.Form = make(url.Values)
+	req.Form.Add("OTP", testBootstrapOTP)
+	victimCookie, err := state.genNewSerializedAuthJWT("victim", AuthTypePassword, 60)
+	if err != nil {
+		t.Fatal(err)
+	}
+	req.AddCookie(&http.Cookie{Name: authCookieName, Value: victimCookie})
+	state.BootstrapOtpAuthHandler(w, req)
+	confirmed := false
+	for _, c := range recorder.Result().Cookies() {
+		if c.Name == authCookieName {
+			if info, err := state.getAuthInfoFromAuthJWT(c.Value); err == nil {
+				t.Logf("certificate user %q proved a bootstrap OTP; request cookie was victim's -> new cookie subject=%q level=%#x (status %d)", testBootstrapUser, info.Username, info.AuthType, recorder.Code)
+				if info.Username != testBootstrapUser && info.AuthType&AuthTypeBootstrapOTP != 0 {
+					confirmed = true
+				}
+			}
+		}
+	}
+	if confirmed {
+		t.Logf("REPLAY-CONFIRMED: another user's session gained the factor")
+	} else {
+		t.Logf("status %d; no cookie of another user was upgraded", recorder.Code)
+		t.Logf("REPLAY-NOT-REPRODUCED")
+	}
+}
